@@ -64,6 +64,27 @@ func init() {
 			fmt.Fprintf(&b, "  (%s, %s)%s\n", leanStr(s.fn), leanStr(s.msg), sep)
 		}
 		b.WriteString("]\n")
+		// the connection-specific request header names checkValidHTTP2Request rejects (answered by the 400 handler)
+		_, sf, err := parseFile(repo, "bfe_http2/server.go")
+		if err != nil {
+			return "", err
+		}
+		cl, ok := findValue(sf, "connHeaders").(*ast.CompositeLit)
+		if !ok {
+			return "", fmt.Errorf("connHeaders is not a composite literal")
+		}
+		b.WriteString("\n/-- `connHeaders` of server.go: request header names that checkValidHTTP2Request rejects -/\ndef connHeaders : List String := [")
+		for i, e := range cl.Elts {
+			n, ok := strLit(e)
+			if !ok {
+				return "", fmt.Errorf("connHeaders: non-literal element")
+			}
+			if i > 0 {
+				b.WriteString(", ")
+			}
+			b.WriteString(leanStr(n))
+		}
+		b.WriteString("]\n")
 		b.WriteString(footer("C35"))
 		return b.String(), nil
 	})
